@@ -182,6 +182,12 @@ def gen_case(r, mode, max_nodes=60):
         g.ops.append('A')
         g.ops.append('E %d' % r.choice(g.live()))
         g.execute(e=0, t=1)
+    if mode == 'exec' and r.random() < 0.35 and g.live():
+        # the parallel executor objects of the case are reused after a run that a throwing node aborted (exception via the task set)
+        e = r.randint(1, 3)
+        g.ops.append('A')
+        g.ops.append('F %d %d %d' % (e, r.randint(1, 4), r.choice(g.live())))
+        g.execute(e=e)
     if r.random() < 0.3:
         g.ops.append('S')
     return g.line()
@@ -269,6 +275,8 @@ def coq_case(line, out):
                 ops.append('IOp OSetAll'); i += 1
             elif o == 'E':      # aborted run (node t[i+1] throws) of the reused single-thread executor, then setAllNodesIncomplete: the state of op A
                 ops.append('IOp OSetAll'); i += 2
+            elif o == 'F':      # the same with a reused parallel executor: F e t a
+                ops.append('IOp OSetAll'); i += 4
             elif o == 'i':
                 ops.append('IOp (OInc %s)' % P(t[i + 1])); i += 2
             elif o == 'k':
@@ -341,7 +349,7 @@ def op_at(line, idx):
     """the idx-th op (0-based) of a case line, with its position, for messages"""
     t = line.split()
     i, k = 1, 0
-    ar = {'s': 1, 'n': 2, 'd': 3, 'b': 3, 'c': 2, 'A': 1, 'i': 2, 'k': 2, 'P': 1, 'x': 3, 'S': 1, 'E': 2}
+    ar = {'s': 1, 'n': 2, 'd': 3, 'b': 3, 'c': 2, 'A': 1, 'i': 2, 'k': 2, 'P': 1, 'x': 3, 'S': 1, 'E': 2, 'F': 4}
     while i < len(t):
         n = ar.get(t[i], 1)
         if k == idx:
@@ -354,7 +362,7 @@ def op_at(line, idx):
 def prefix_upto(line, idx):
     t = line.split()
     i, k = 1, 0
-    ar = {'s': 1, 'n': 2, 'd': 3, 'b': 3, 'c': 2, 'A': 1, 'i': 2, 'k': 2, 'P': 1, 'x': 3, 'S': 1, 'E': 2}
+    ar = {'s': 1, 'n': 2, 'd': 3, 'b': 3, 'c': 2, 'A': 1, 'i': 2, 'k': 2, 'P': 1, 'x': 3, 'S': 1, 'E': 2, 'F': 4}
     while i < len(t):
         n = ar.get(t[i], 1)
         i += n
